@@ -148,6 +148,17 @@ func c11Drivers() []c11Driver {
 		"甲.zn": "如何共一？\n    输出1\n如何共二？\n    输出2\n如何共三？\n    输出3",
 		"乙.zn": "如何共一？\n    输出1\n如何共二？\n    输出2\n如何共三？\n    输出3",
 	}})
+	// a module that imports a library and defines methods of the same names itself: whichever
+	// clash is reported, it is the same one in every run
+	ds = append(ds, c11Driver{Name: "module-redefines-imported-names", Kind: "files", Files: map[string]string{
+		"主.zn": "导入“甲”\n输出1",
+		"甲.zn": "导入《@JSON》\n如何解析JSON？\n    输出1\n如何生成JSON？\n    输出2\n如何另法？\n    输出3",
+	}})
+	ds = append(ds, c11Driver{Name: "module-redefines-imported-module-names", Kind: "files", Files: map[string]string{
+		"主.zn": "导入“甲”\n输出1",
+		"甲.zn": "导入“乙”\n如何共一？\n    输出1\n如何共二？\n    输出2\n如何共三？\n    输出3",
+		"乙.zn": "如何共一？\n    输出1\n如何共二？\n    输出2\n如何共三？\n    输出3",
+	}})
 	ds = append(ds, c11Driver{Name: "module-cycle", Kind: "files", Files: map[string]string{
 		"主.zn": "导入“甲”\n导入“乙”\n输出1",
 		"甲.zn": "导入“丙”\n如何甲法？\n    输出1",
@@ -279,6 +290,8 @@ func c11Sig(d c11Driver) string {
 		return "response-header-order"
 	case d.Kind == "http" && d.Name == "http-headers":
 		return "request-header-order"
+	case strings.HasPrefix(d.Name, "module-redefines"):
+		return "module-own-names-redeclared-in-map-order"
 	case d.Name == "module-collision-two-names":
 		return "import-collision-message-order"
 	case d.Name == "exprinput-two-errors":
